@@ -23,6 +23,13 @@ Definition sep (b : bytes) : bytes := if ends_nl b then [] else [NL].
 (* what commit_cache_file leaves in the temp file *)
 Definition cached_form (body u : bytes) : bytes := body ++ sep body ++ trailer u.
 
+(* A response has two URLs: the one that was requested and the one it finally came from (`res.url()`; they differ when
+   reqwest followed redirects).  Which of them fetch_symbol_file reports to the caller and which it writes into the note is
+   translated from the source (Gen/C16Ops.v report_url_src / note_url_src). *)
+Inductive urlsrc := URequested | UFinal.
+Definition pick_url (s : urlsrc) (requested final : bytes) : bytes :=
+  match s with URequested => requested | UFinal => final end.
+
 (* ---------------------------------------------------------------- abstract file system *)
 Definition path := Z.
 Inductive node := File (c : bytes) | Dir.
